@@ -380,7 +380,11 @@ func runCell(p *pki, o *origin, comp *origin, cl cell, timeout time.Duration) (r
 				c.DisableInsecureSkipVerify()
 			}
 		case "root":
-			c.SetRootCertFromString(p.cas[x.N].pem)
+			if x.B { // the other root setter: it ADDS the file's certificates to the roots configured so far
+				c.SetRootCertsFromFile(p.caFile[x.N])
+			} else {
+				c.SetRootCertFromString(p.cas[x.N].pem)
+			}
 		case "cert":
 			c.SetCerts(p.clientCert[x.N])
 		case "sname":
@@ -650,6 +654,12 @@ func runCell(p *pki, o *origin, comp *origin, cl cell, timeout time.Duration) (r
 			if rec.Outcome == "V3" {
 				okQuic[hi] = true
 			}
+		}
+		if o.spec.HTTPS && force != "" && rec.Outcome == "ECert" && len(rec.Hellos) == 0 && refOK && refTCP && refTun && refHop {
+			// a version is forced, so the request dials or uses a live connection; it failed with a certificate error
+			// although no handshake took place and everything would accept the origin under the settings of the
+			// moment: the failure of an EARLIER attempt (made before the settings were corrected) was handed out
+			viol("rejected-acceptable/no-handshake", "the request failed with a certificate error without any handshake although the origin is acceptable under the client's current settings (an earlier attempt's failure, from before the settings were corrected?): "+rec.Detail)
 		}
 		if rec.Outcome == "Cleartext" {
 			how := "no-custom-dialer"
